@@ -2,6 +2,10 @@ pub mod common;
 pub mod c01;
 pub mod c02;
 pub mod c03;
+pub mod c05;
+pub mod c06;
+pub mod c07;
+pub mod c10;
 pub mod corpus_checks;
 
 use crate::runner::{CaseResult, Ctx, Local};
@@ -19,5 +23,9 @@ pub fn all() -> Vec<Prop> {
         Prop { id: "C01", run: c01::run, replay: c01::replay, self_test: common::self_test_codec },
         Prop { id: "C02", run: c02::run, replay: c02::replay, self_test: common::self_test_codec },
         Prop { id: "C03", run: c03::run, replay: c03::replay, self_test: common::self_test_codec },
+        Prop { id: "C05", run: c05::run, replay: c05::replay, self_test: common::self_test_codec },
+        Prop { id: "C06", run: c06::run, replay: c06::replay, self_test: common::self_test_codec },
+        Prop { id: "C07", run: c07::run, replay: c07::replay, self_test: common::self_test_codec },
+        Prop { id: "C10", run: c10::run, replay: c10::replay, self_test: common::self_test_codec },
     ]
 }
